@@ -52,7 +52,18 @@ def typing_subjects(ctx, per_kit=1, per_enzyme=1, parts=20):
     for c in ctx.tables["classes"]:
         if c["abstract"] or c["structure"] is None or c["cutter"] is None or c["role"] is None:
             continue
-        items = pattern.tokenize(c["structure"], ctx.lettermap)
+        try:
+            items = pattern.tokenize(c["structure"], ctx.lettermap)
+        except pattern.Unsupported:
+            # a structure outside the flat fragment (e.g. a look-behind on the upstream site): the model cannot
+            # speak about it (reported as such), but the rotation oracle can: an instance is generated from the
+            # text with the look-around assertions turned into plain letters
+            import re as _re
+            relaxed = _re.sub(r"\(\?<?[=!]([^()]*)\)", r"\1", c["structure"])
+            try:
+                items = pattern.tokenize(relaxed, ctx.lettermap)
+            except pattern.Unsupported:
+                continue
         for _ in range(per_kit):
             s = gens.instantiate(rng, items, star=(0, 6)) + gens.rand_dna(rng, rng.randrange(0, 6))
             out.append((gens.kit_spec(c), gens.new_origin(s, rng.randrange(0, len(s))), "kit"))
@@ -120,8 +131,10 @@ def own_regex(text):
 def matching_starts(text, seq):
     rx = own_regex(text)
     n = len(seq)
-    d = seq * 2
-    return [i for i in range(n) if rx.match(d[i:i + n])]
+    # read on the circle: a window of one turn starting at i, with the letters before i visible to a
+    # look-behind assertion (three copies, the window taken in the middle one)
+    d = seq * 3
+    return [i for i in range(n) if rx.match(d, n + i, 2 * n + i)]
 
 
 _ALIVE = []
